@@ -137,22 +137,22 @@ func checkC12(r *Run) int {
 	}
 	worlds := []world{{"f5", base, space.F5Roots, extList}, {"names", c12NamesFile(false), c12NamesRoots, extList[:1]}, {"names-reversed", c12NamesFile(true), c12NamesRoots, extList[:1]}}
 	for _, wd := range worlds {
-	base := wd.file
-	for _, sub := range subsets(wd.roots) {
-		for _, srt := range []bool{false, true} {
-			for ei, e := range wd.exts {
-				f, extra := e.apply(base)
-				cfg := space.BaseConfig(sub...)
-				cfg.Sort = srt
-				execs = append(execs, &gExec{Label: fmt.Sprintf("%s|types=%s|sort=%v|ext=%s", wd.name, strings.Join(sub, "+"), srt, e.name), FD: f.Descriptor(), Extra: extra, YAML: cfg.YAML(nil, nil)})
-				metas = append(metas, meta{sub, srt, e.name, wd.name})
-				if extra == nil && (r.Tier == "thorough" || ei == 0 || len(sub) == 4) && !(e.name == "extra-file-imported") && (wd.name == "f5" || len(sub) >= 4 || r.Tier == "thorough") {
-					cf := *f
-					compile = append(compile, &space.Case{Label: "C12/" + execs[len(execs)-1].Label, Family: "F5", Tags: map[string]string{"class": "multiroot", "card": "mixed", "vt": "multiroot", "pos": "deep"}, File: &cf, Cfg: cfg})
+		base := wd.file
+		for _, sub := range subsets(wd.roots) {
+			for _, srt := range []bool{false, true} {
+				for ei, e := range wd.exts {
+					f, extra := e.apply(base)
+					cfg := space.BaseConfig(sub...)
+					cfg.Sort = srt
+					execs = append(execs, &gExec{Label: fmt.Sprintf("%s|types=%s|sort=%v|ext=%s", wd.name, strings.Join(sub, "+"), srt, e.name), FD: f.Descriptor(), Extra: extra, YAML: cfg.YAML(nil, nil)})
+					metas = append(metas, meta{sub, srt, e.name, wd.name})
+					if extra == nil && (r.Tier == "thorough" || ei == 0 || len(sub) == 4) && !(e.name == "extra-file-imported") && (wd.name == "f5" || len(sub) >= 4 || r.Tier == "thorough") {
+						cf := *f
+						compile = append(compile, &space.Case{Label: "C12/" + execs[len(execs)-1].Label, Family: "F5", Tags: map[string]string{"class": "multiroot", "card": "mixed", "vt": "multiroot", "pos": "deep"}, File: &cf, Cfg: cfg})
+					}
 				}
 			}
 		}
-	}
 	}
 	r.runAll(execs, r.Mod.Tools.Plugin)
 	r.phase("plugin runs")
